@@ -577,8 +577,9 @@ func (w *vc36World) removeBlockRacy(u *vc36Cid) {
 
 // gcAbsorbed (stratum gc-race only): the block of (p,c) vanished while a task
 // of p for it was queued, and everything that could have created a fresh task
-// since (re-adds with NotifyNewBlocks, re-wants) happened while one envelope
-// to p was in flight. The stale task inside that envelope is still "active"
+// since (re-adds with NotifyNewBlocks, re-wants) began before an envelope to p
+// that was built after the removal had been sent. The stale task is pending
+// (later wants merge into it) or, inside that envelope, still "active"
 // and, having been created for a present block, makes every new task look
 // redundant; it is finished when the envelope is sent. This follow-up of a
 // stale decision is garbage-collection territory like the stale decision
@@ -590,29 +591,26 @@ func (w *vc36World) gcAbsorbed(p peer.ID, u *vc36Cid) bool {
 	if !ok || w.gcHit[key] != rem {
 		return false
 	}
-	lo, hi := int64(-1), int64(-1)
-	note := func(ev *vc36Ev) {
-		if ev.start <= rem {
-			return
-		}
-		if lo < 0 || ev.start < lo {
-			lo = ev.start
-		}
-		if ev.end > hi {
-			hi = ev.end
-		}
-	}
+	// latest start of an operation that could have created a fresh task
+	last := int64(-1)
 	for _, ad := range w.addOps[u.mhKey] {
-		note(ad)
+		if ad.start > rem && ad.start > last {
+			last = ad.start
+		}
 	}
 	for _, op := range w.wantOps[key] {
-		note(op.ev)
+		if op.ev.start > rem && op.ev.start > last {
+			last = op.ev.start
+		}
 	}
-	if lo < 0 {
+	if last < 0 {
 		return false
 	}
 	for _, e := range w.envs {
-		if e.p == p && e.a < lo && e.sentEnd > hi {
+		// the envelope that carried the stale task was still unsent when the
+		// last such operation began (operations before the pop merge into the
+		// stale task, operations after the pop are judged redundant)
+		if e.p == p && e.sentEnd > rem && e.sentEnd > last {
 			w.k.C.Count("gc_readd_absorbed_by_inflight_envelope", 1)
 			return true
 		}
